@@ -1263,3 +1263,53 @@ benign('benign-c04-verify-match', 'C04', 'crates/edp_client/src/state_machine.rs
             }
             false => Err(Error::AuthenticationFailed),
         }""")
+benign('benign-c09-entry-api', 'C09', 'crates/edp_client/src/fragmentation.rs', """        if let Some(msg) = self.pending.get_mut(&sequence_id) {
+            trace!(
+                "Received header for sequence {} which already has buffered fragments",
+                sequence_id.0
+            );
+            msg.set_total_fragments(count);
+            msg.atom_cache_data = atom_cache_data;
+            msg.add_fragment(fragment_id, payload);
+
+            if msg.is_complete() {
+                trace!("Fragment sequence {} now complete", sequence_id.0);
+                if let Some(msg) = self.pending.remove(&sequence_id) {
+                    return msg.reassemble();
+                }
+            }
+            None
+        } else {
+            let mut msg = FragmentedMessage::new(sequence_id.0, Some(count), atom_cache_data);
+            msg.add_fragment(fragment_id, payload);
+
+            if msg.is_complete() {
+                trace!("Fragment sequence {} complete immediately", sequence_id.0);
+                msg.reassemble()
+            } else {
+                self.pending.insert(sequence_id, msg);
+                None
+            }
+        }""", """        let msg = match self.pending.entry(sequence_id) {
+            Entry::Occupied(entry) => {
+                let msg = entry.into_mut();
+                msg.set_total_fragments(count);
+                msg.atom_cache_data = atom_cache_data;
+                msg
+            }
+            Entry::Vacant(entry) => entry.insert(FragmentedMessage::new(
+                sequence_id.0,
+                Some(count),
+                atom_cache_data,
+            )),
+        };
+        msg.add_fragment(fragment_id, payload);
+
+        if msg.is_complete() {
+            trace!("Fragment sequence {} now complete", sequence_id.0);
+            return self
+                .pending
+                .remove(&sequence_id)
+                .and_then(FragmentedMessage::reassemble);
+        }
+        None""")
